@@ -56,6 +56,12 @@ def render(m, meta, trials=400):
                 if cell is None:
                     errs.append(("missing", i, j)); continue
                 up, lo = cell_colors(cell)
+                if kitty and termbg is not None and cell[3] == termbg:
+                    # kitty does not paint a cell background equal to its own default background: that half of the picture is whatever
+                    # shows through the window, not the pixel
+                    errs.append({"cell": (i, j), "emitted background": cell[3], "is the terminal's default background": termbg,
+                                 "effect": "left unpainted by kitty", "glyph": cell[1]})
+                    continue
                 for half, got, idx in (("up", up, (2 * i) * W + j), ("lo", lo, (2 * i + 1) * W + j)):
                     want = None if (transp and a[idx] == 0) else rgb[idx]
                     if got != want:
